@@ -144,7 +144,7 @@ class FakeSocket:
                     w.canon_write(data)
                 except Exception:  # noqa
                     pass
-            raise socket.error(104, 'simulated write failure' + HOSTILE)
+            raise socket.error(w.sc.werrno, 'simulated write failure' + HOSTILE)
         w.raw.append(data)
         w.log(w.canon_write(data))
 
@@ -241,8 +241,9 @@ class Scenario:
 
     def __init__(self, env, reactions=None, poll=5, prate=30, ptimeout=0, autopong=True,
                  ctimeout=30, conn='ok', wfail=(), compress=False, protocols=(), url='ws://example.com/chat',
-                 key_seed=0, variant='111110', zero=False, tdiv=1):
+                 key_seed=0, variant='111110', zero=False, tdiv=1, werrno=104):
         self.env = env
+        self.werrno = werrno    # errno of an injected sendall failure (104 ECONNRESET; 4 EINTR: 'interrupted' after part of the data went out)
         self.tdiv = tdiv        # all times of the scenario are in units of 1/tdiv second (tdiv a power of two: float arithmetic stays exact); the model counts units
         self.zero = zero        # a disabled timeout (0) is passed to connect() as 0.0 rather than as None (both mean 'disabled' in lomond's API)
         self.reactions = reactions or {}
@@ -613,6 +614,77 @@ def run_chain(scs, worlds=None):
             gc.collect()
         _session.time, _events.time, _frame.make_masking_key, _websocket.os.urandom = saved
     return out
+
+
+def run_duo(sc_a, sc_b, pattern=(0, 1)):
+    """Two connections on two WebSocket objects alive AT THE SAME TIME in one process: their event iterators are advanced
+       alternately following `pattern` (cyclic list of 0/1; a finished connection is skipped).  Returns the two canonical traces -
+       each must equal the trace of the same scenario run alone (nothing is shared between sessions)."""
+    saved = (_session.time, _events.time, _frame.make_masking_key, _websocket.os.urandom)
+    cur = {}
+
+    class TimeShim:
+        @staticmethod
+        def time():
+            return cur['world'].clock.t
+
+    def next_key():
+        w = cur['world']
+        k = w.key_ctr
+        w.key_ctr += 1
+        return test_key(k)
+    conns = []
+    try:
+        _session.time = TimeShim
+        _events.time = TimeShim
+        _frame.make_masking_key = next_key
+        _websocket.os.urandom = lambda n: cur['sc'].key_bytes()[:n]
+        for sc in (sc_a, sc_b):
+            w = World(sc)
+            w.canon_write = _canon_write_factory(w)
+            cur['sc'], cur['world'] = sc, w
+            ws = WebSocket(sc.url, proxies={}, protocols=sc.protocols or None, compress=sc.compress)
+            gen = ws.connect(session_class=make_session_class(w), poll=float(sc.poll) / sc.tdiv, ping_rate=float(sc.prate) / sc.tdiv,
+                             ping_timeout=(float(sc.ptimeout) / sc.tdiv if (sc.ptimeout or sc.zero) else None), auto_pong=sc.autopong,
+                             close_timeout=(float(sc.ctimeout) / sc.tdiv if (sc.ctimeout or sc.zero) else None))
+            conns.append(dict(sc=sc, w=w, ws=ws, gen=gen, idx=0, done=False))
+        k = 0
+        while not all(c['done'] for c in conns):
+            c = conns[pattern[k % len(pattern)]]
+            k += 1
+            if c['done']:
+                continue
+            cur['sc'], cur['world'] = c['sc'], c['w']
+            try:
+                ev = next(c['gen'])
+            except StopIteration:
+                c['done'] = True
+                continue
+            except ScriptEnd:
+                c['w'].log('INCOMPLETE'); c['w'].recording = False; c['done'] = True
+                continue
+            except Exception as e:  # noqa
+                c['w'].log('ESCAPED:' + type(e).__name__); c['done'] = True
+                continue
+            tok = show_event(ev)
+            c['w'].log(tok)
+            c['w'].kept.append((tok, ev))
+            if ev.name == 'ready':
+                c['w'].deflate_cfg = c['ws'].state.compression
+            for a in c['sc'].reactions.get(c['idx'], []):
+                do_act(c['w'], c['ws'], a)
+            c['idx'] += 1
+        out = []
+        for c in conns:
+            w = c['w']
+            for i, (tok, ev) in enumerate(w.kept):
+                if show_event(ev) != tok:
+                    w.trace.append('MUTATED:%d' % i)
+            out.append(' '.join(w.trace + ['END:sock=%d:sel=%d:closing=%d:closed=%d' % (1 if w.sock_open else 0, 1 if w.sel_open else 0,
+                                                                                      1 if c['ws'].state.closing else 0, 1 if c['ws'].state.closed else 0)]))
+        return out
+    finally:
+        _session.time, _events.time, _frame.make_masking_key, _websocket.os.urandom = saved
 
 
 def _run_one(ws, sc, world, held=None, sess_cls=None):
